@@ -1381,3 +1381,285 @@ theorem initF_inv (env : Env) (cfg : Cfg) (url : Url) (params : Option Str) (met
   exact ⟨h.hdrs, h.noJar, h.cookies, h.le⟩
 
 end Aio.C17
+
+/-! ## netrc credentials belong to the host of the request that carries them -/
+namespace Aio.C17
+open Aio
+
+def AllH (P : Hdr → Prop) (h : List Hdr) : Prop := ∀ x ∈ h, P x
+
+theorem AllH.setHdr {P : Hdr → Prop} {h : List Hdr} {x : Hdr} (ht : AllH P h) (hx : P x) : AllH P (setHdr x h) := by
+  intro y hy
+  rcases mem_setHdr hy with h1 | h1
+  · subst h1; exact hx
+  · exact ht y h1
+
+theorem AllH.popFirst {P : Hdr → Prop} {h : List Hdr} (n : Str) (ht : AllH P h) : AllH P (popFirst n h) :=
+  fun y hy => ht y (mem_of_mem_popFirst hy)
+
+theorem AllH.autoHeaders {P : Hdr → Prop} {h : List Hdr} (hnil : ∀ x : Hdr, x.provs = [] → P x) (ht : AllH P h) :
+    AllH P (autoHeaders h) := by
+  intro y hy
+  rcases mem_autoHeaders hy with h1 | h1
+  · exact ht y h1
+  · exact hnil y h1
+
+theorem AllH.bodyHeaders {P : Hdr → Prop} {h : List Hdr} (hnil : ∀ x : Hdr, x.provs = [] → P x) (m : Str) (d : Option Body)
+    (ht : AllH P h) : AllH P (bodyHeaders m d h).1 := by
+  unfold C17.bodyHeaders
+  split
+  · split
+    · exact ht.setHdr (hnil _ rfl)
+    · exact ht
+  · next b =>
+    have h1 : AllH P (if !has CONTENT_LENGTH h then
+        if b.sized then (C17.setHdr { name := CONTENT_LENGTH, value := (toDec b.data.length).map (·.toNat) } h, false)
+        else (h, true) else (h, false)).1 := by
+      split
+      · split
+        · exact ht.setHdr (hnil _ rfl)
+        · exact ht
+      · exact ht
+    generalize (if !has CONTENT_LENGTH h then
+        if b.sized then (C17.setHdr { name := CONTENT_LENGTH, value := (toDec b.data.length).map (·.toNat) } h, false)
+        else (h, true) else (h, false)) = pr at h1
+    obtain ⟨h', ch⟩ := pr
+    simp only at h1 ⊢
+    split
+    · split
+      · exact h1
+      · exact h1.setHdr (hnil _ rfl)
+    · exact h1
+
+theorem AllH.teHeaders {P : Hdr → Prop} {h h' : List Hdr} {m : Str} {d : Option Body} {ch : Bool}
+    (hnil : ∀ x : Hdr, x.provs = [] → P x) (ht : AllH P h) (he : teHeaders m d ch h = .ok h') : AllH P h' := by
+  rcases teHeaders_cases he with h1 | h1
+  · subst h1; exact ht
+  · subst h1; exact ht.setHdr (hnil _ rfl)
+
+theorem AllH.defaultCtype {P : Hdr → Prop} {h : List Hdr} (hnil : ∀ x : Hdr, x.provs = [] → P x) (m : Str) (ht : AllH P h) :
+    AllH P (defaultCtype m h) := by
+  unfold C17.defaultCtype
+  split
+  · exact ht.setHdr (hnil _ rfl)
+  · exact ht
+
+/-- a header with a netrc provenance is an `Authorization` header whose value is the netrc entry of `host` -/
+def NetrcP (env : Env) (host : Str) (x : Hdr) : Prop :=
+  ∀ k, Prov.netrc k ∈ x.provs → ciEq x.name AUTHORIZATION = true ∧ env.netrc host = some x.value
+
+theorem netrcP_nil (env : Env) (host : Str) (x : Hdr) (h : x.provs = []) : NetrcP env host x := by
+  intro k hk; rw [h] at hk; simp at hk
+
+theorem not_auth_of_ciEq {a n : Str} (hn : ciEq a n = true) (hne : ciEq n AUTHORIZATION = false) :
+    ciEq a AUTHORIZATION = false := by
+  simp [ciEq] at *
+  rw [hn]; exact hne
+
+theorem applyAuth_netrc {env : Env} {cfg : Cfg} {st : St env.jar.σ} {hs : List Hdr}
+    (ht : AllH (NetrcP env st.url.origin.host) st.headers) (h : applyAuth env cfg st = .ok hs) :
+    AllH (NetrcP env st.url.origin.host) hs := by
+  unfold applyAuth at h
+  split at h
+  · split at h
+    · cases h
+    · injection h with h; subst h
+      apply ht.setHdr
+      intro k hk; simp at hk
+  · split at h
+    · split at h
+      · next a ha =>
+        injection h with h; subst h
+        apply ht.setHdr
+        intro k _
+        exact ⟨(by decide : ciEq AUTHORIZATION AUTHORIZATION = true), ha⟩
+      · injection h with h; subst h; exact ht
+    · injection h with h; subst h; exact ht
+
+theorem prepare_netrc {env : Env} {cfg : Cfg} {st st1 : St env.jar.σ} {s : Sent}
+    (ht : AllH (NetrcP env st.url.origin.host) st.headers) (h : prepare env cfg st = .ok (st1, s)) :
+    AllH (NetrcP env st.url.origin.host) s.headers ∧ AllH (NetrcP env st.url.origin.host) st1.headers ∧
+      s.url.origin = st.url.origin ∧ st1.url.origin = st.url.origin := by
+  have hnil := netrcP_nil env st.url.origin.host
+  unfold prepare at h
+  simp only at h
+  split at h
+  · cases h
+  · split at h
+    · cases h
+    · next hs hauth =>
+      have t0 := applyAuth_netrc ht hauth
+      have tp : AllH (NetrcP env st.url.origin.host) (popFirst HOST hs) := t0.popFirst HOST
+      have thost : NetrcP env st.url.origin.host (hostHeader { st.url with cred := none } hs) := by
+        unfold hostHeader
+        split
+        · next y hy =>
+          intro k hk
+          have ⟨hm, hn⟩ := getFirst_mem hy
+          have := (t0 y hm k hk).1
+          have hno := not_auth_of_ciEq hn (by decide : ciEq HOST AUTHORIZATION = false)
+          rw [hno] at this; cases this
+        · exact hnil _ rfl
+      have t1 : AllH (NetrcP env st.url.origin.host)
+          (autoHeaders (hostHeader { st.url with cred := none } hs :: popFirst HOST hs)) := by
+        apply AllH.autoHeaders hnil
+        intro y hy
+        rcases List.mem_cons.mp hy with h1 | h1
+        · subst h1; exact thost
+        · exact tp y h1
+      have t2 : AllH (NetrcP env st.url.origin.host)
+          (cookieHeaders env (autoHeaders (hostHeader { st.url with cred := none } hs :: popFirst HOST hs))
+            (allCookies env st { st.url with cred := none })) := by
+        unfold cookieHeaders
+        split
+        · exact t1
+        · intro y hy
+          rcases List.mem_append.mp hy with h1 | h1
+          · exact t1 y (mem_popAll.mp h1).1
+          · simp at h1; subst h1
+            intro k hk
+            exfalso
+            simp only [List.mem_flatMap] at hk
+            obtain ⟨c, hc, hkc⟩ := hk
+            unfold mergedCookies at hc
+            split at hc
+            · simp at hc
+            · rw [mem_sortCookies] at hc
+              rcases mem_loadCookies hc with h2 | h2
+              · rcases mem_loadCookies h2 with h3 | h3
+                · simp at h3
+                · unfold headerCookies at h3
+                  split at h3
+                  · next z hz =>
+                    simp only [List.mem_map] at h3
+                    obtain ⟨nv, _, rfl⟩ := h3
+                    have ⟨hm, hn⟩ := getFirst_mem hz
+                    have := (t1 z hm k hkc).1
+                    have hno := not_auth_of_ciEq hn (by decide : ciEq COOKIE AUTHORIZATION = false)
+                    rw [hno] at this; cases this
+                  · simp at h3
+              · rcases mem_loadCookies h2 with h3 | h3
+                · simp only [jarCookies, List.mem_map] at h3
+                  obtain ⟨nv, _, rfl⟩ := h3
+                  simp at hkc
+                · unfold reqCookies at h3
+                  split at h3
+                  · simp only [List.mem_map] at h3
+                    obtain ⟨nv, _, rfl⟩ := h3
+                    simp at hkc
+                  · simp at h3
+      have t3 := AllH.bodyHeaders hnil st.method st.data t2
+      generalize hb : bodyHeaders st.method st.data _ = pr at h t3
+      obtain ⟨h3, ch⟩ := pr
+      simp only at h t3
+      split at h
+      · cases h
+      · next h4 hte =>
+        have t4 := AllH.teHeaders hnil t3 hte
+        have t5 := AllH.defaultCtype hnil st.method t4
+        split at h
+        · cases h
+        · next body hbody =>
+          injection h with h
+          injection h with h1 h2
+          subst h1; subst h2
+          exact ⟨t5, tp, rfl, rfl⟩
+
+theorem react_netrc {env : Env} {cfg : Cfg} {st1 st2 : St env.jar.σ} {s : Sent} {r : Resp} {evs : List Ev}
+    (ht : AllH (NetrcP env s.url.origin.host) st1.headers) (h : react env cfg st1 s r = .continue st2 evs) :
+    AllH (NetrcP env st2.url.origin.host) st2.headers := by
+  unfold react at h
+  simp only at h
+  split at h
+  · split at h
+    · cases h
+    · split at h
+      · cases h
+      · split at h
+        · cases h
+        · cases h
+        · cases h
+        · cases h
+        · next target hloc =>
+          injection h with h1 h2
+          subst h1
+          by_cases hc : (s.url.origin != target.origin) = true
+          · simp only [hc, if_true]
+            intro x hx k hk
+            have hm := mem_stripSecrets hx
+            have hsec := hm.2
+            have hx' : x ∈ st1.headers := by
+              have := hm.1
+              split at this
+              · exact mem_dropContentLength this
+              · exact this
+            have := (ht x hx' k hk).1
+            simp [isSecretName, this] at hsec
+          · have hc' : (s.url.origin != target.origin) = false := by simpa using hc
+            have heq : target.origin = s.url.origin := by
+              simp at hc'; exact hc'.symm
+            simp only [hc', Bool.false_eq_true, if_false]
+            intro x hx
+            show NetrcP env target.origin.host x
+            rw [heq]
+            split at hx
+            · exact ht x (mem_dropContentLength hx)
+            · exact ht x hx
+  · cases h
+
+/-- along the whole (fault-aware) run, a netrc-provenance header sent to a host is that host's netrc entry -/
+theorem runF_netrc {env : Env} {cfg : Cfg} (chain : List Reply) :
+    ∀ (st : St env.jar.σ), AllH (NetrcP env st.url.origin.host) st.headers →
+      ∀ sk ∈ (runF env cfg st chain).sent, AllH (NetrcP env sk.url.origin.host) sk.headers := by
+  induction chain with
+  | nil =>
+    intro st ht sk hk
+    rcases runF_view (cfg := cfg) st [] with ⟨e, hp, hres⟩ | ⟨st1, s, hp, hc, hres⟩ | ⟨st1, s, rest, e, hp, hc, hd, hres⟩ | ⟨st1, s, rest, st1', hp, hc, hd, hres⟩ | ⟨st1, s, r, rest, out, evs, hp, hc, hr, hres⟩ | ⟨st1, s, r, rest, st2, evs, hp, hc, hr, hres⟩
+    · rw [hres] at hk; simp at hk
+    · rw [hres] at hk; simp at hk; subst hk
+      obtain ⟨a, _, c, _⟩ := prepare_netrc ht hp
+      rw [c]; exact a
+    · cases hc
+    · cases hc
+    · cases hc
+    · cases hc
+  | cons x0 rest0 ih =>
+    intro st ht sk hk
+    rcases runF_view (cfg := cfg) st (x0 :: rest0) with ⟨e, hp, hres⟩ | ⟨st1, s, hp, hc, hres⟩ | ⟨st1, s, rest, e, hp, hc, hd, hres⟩ | ⟨st1, s, rest, st1', hp, hc, hd, hres⟩ | ⟨st1, s, r, rest, out, evs, hp, hc, hr, hres⟩ | ⟨st1, s, r, rest, st2, evs, hp, hc, hr, hres⟩
+    · rw [hres] at hk; simp at hk
+    · cases hc
+    · obtain ⟨a, _, c, _⟩ := prepare_netrc ht hp
+      rw [hres] at hk; simp at hk; subst hk
+      rw [c]; exact a
+    · injection hc with h1 h2; subst h1; subst h2
+      obtain ⟨a, b, c, d⟩ := prepare_netrc ht hp
+      rw [hres] at hk
+      rcases List.mem_cons.mp hk with h3 | h3
+      · subst h3; rw [c]; exact a
+      · have hst := (afterDrop_ok hd).2
+        refine ih st1' ?_ sk h3
+        rw [hst]; show AllH (NetrcP env st1.url.origin.host) st1.headers
+        rw [d]; exact b
+    · obtain ⟨a, _, c, _⟩ := prepare_netrc ht hp
+      rw [hres] at hk; simp at hk; subst hk
+      rw [c]; exact a
+    · injection hc with h1 h2; subst h1; subst h2
+      obtain ⟨a, b, c, d⟩ := prepare_netrc ht hp
+      rw [hres] at hk
+      rcases List.mem_cons.mp hk with h3 | h3
+      · subst h3; rw [c]; exact a
+      · refine ih st2 (react_netrc ?_ hr) sk h3
+        rw [c]; exact b
+
+theorem initF_netrc (env : Env) (cfg : Cfg) (url : Url) (params : Option Str) (method : Str) (defaults headers : List (Str × Str))
+    (cookies : Option (List (Str × Str))) (data : Option Body) (jar0 : env.jar.σ) (host : Str) :
+    AllH (NetrcP env host) (initF env cfg url params method defaults headers cookies data jar0).headers := by
+  intro x hx k hk
+  have : x.provs = [.caller] := by
+    rcases mem_prepareHeaders hx with h1 | h1 <;>
+    · simp only [List.mem_map] at h1
+      obtain ⟨nv, _, rfl⟩ := h1
+      rfl
+  rw [this] at hk; simp at hk
+
+end Aio.C17
